@@ -194,6 +194,17 @@ pub fn on_dial_created(w: &mut World, did: usize) {
 pub fn on_conn_dropped(_w: &mut World, _cid: usize) {}
 
 /// requests of `origin` whose sender sits in the pool's waiter queue (live receiver)
+fn own_dial_outstanding(w: &World, rid: usize) -> bool {
+    let r = &w.reqs[rid];
+    r.is_owner
+        && r.dial
+            .map(|d| {
+                let d = &w.dials[d];
+                d.abandoned_step.is_none() && d.dropped_step.is_none() && (!d.completed || d.hs.map(|h| !w.hss[h].completed && w.hss[h].dropped_step.is_none()).unwrap_or(false))
+            })
+            .unwrap_or(false)
+}
+
 fn live_waiters(w: &World, origin: &str, not: Option<usize>) -> Vec<usize> {
     // a request that may or may not have popped an idle connection at issue counts as (possibly) waiting
     waiting_reqs(w, origin).filter(|r| !r.must_use_idle && Some(r.id) != not).map(|r| r.id).collect()
@@ -226,6 +237,9 @@ pub fn offer(w: &mut World, cid: usize, strict_each: bool) {
     }
     w.conns[cid].to_idle_at_ready = waiters.is_empty();
     if !waiters.is_empty() {
+        for x in &waiters {
+            w.reqs[*x].offered_since_poll.push(cid);
+        }
         w.offers.push(Offer { conn: cid, step, waiters, polled: vec![], strict_each });
         w.count("c14_freed_connection_offered_to_waiters");
     }
@@ -610,6 +624,40 @@ pub fn post_step(w: &mut World, snapshot: &[hyperdriver::verif_hooks::PoolEntry]
             if n > max && waiting_reqs(w, &o).next().is_none() {
                 w.violate("C15", "retained-idle-connections-exceed-max(boundary)", format!("{n} released, ready, open HTTP/1 connections to {o} are kept alive with max_idle_per_host={max}"));
             }
+        }
+    }
+    // C14(a'): a freed HTTP/1 connection was discarded by the pool (the peer did not close it, nobody used it
+    // since) although a request that was certainly queued when it was handed back is still waiting and no
+    // other freed connection can be sitting in that request's channel. Only requests waiting for their OWN attempt
+    // count: a request waiting on somebody else's attempt may have been released from the queue to re-join later.
+    {
+        let mut verdicts = vec![];
+        for o in w.offers.iter().filter(|o| !o.strict_each) {
+            let c = &w.conns[o.conn];
+            let discarded = !c.alive() && c.open() && c.holders == 0 && !c.busy && !c.h2 && c.ready_reported_step == Some(o.step) && c.last_handoff_step.map(|h| h < o.step).unwrap_or(true) && !c.destroyed_by_cancel;
+            if !discarded || c.discard_judged {
+                continue;
+            }
+            if !o.waiters.iter().all(|x| w.reqs[*x].state == ReqState::Checkout) {
+                continue;
+            }
+            let certain: Vec<usize> = o
+                .waiters
+                .iter()
+                .copied()
+                .filter(|x| {
+                    let r = &w.reqs[*x];
+                    r.polls > 0 && r.issued_step < o.step && r.avail_at_issue.is_empty() && own_dial_outstanding(w, *x) && r.offered_since_poll.iter().all(|c| *c == o.conn) && !w.offers.iter().any(|p| p.conn != o.conn && p.waiters.contains(x))
+                })
+                .collect();
+            if certain.is_empty() {
+                continue;
+            }
+            verdicts.push((o.conn, format!("c{} was handed back at step {} while requests {:?} were queued waiting for a connection to {}; the pool dropped it (peer had not closed it) instead of delivering it (max_idle_per_host={max})", o.conn, o.step, certain, c.origin)));
+        }
+        for (cid, msg) in verdicts {
+            w.conns[cid].discard_judged = true;
+            w.violate("C14", "freed-connection-dropped-while-requests-wait", msg);
         }
     }
     // C14(a): a freed HTTP/1 connection sits in the pool's idle list although requests that were waiting when it
